@@ -312,9 +312,55 @@ def r20_3(run, model):
     run.floor("expressions with both a hover type and an elaboration", n, 3)
 
 
+def r20_4(run, model):
+    run.rule("R20.4", "invariants the site ledger rests on are checked, not only stated: (a) lower_path yields Some only for a non-empty "
+                      "segment list (the `.expect(\"paths must contain at least one segment\")` sites rely on it), and every other producer "
+                      "of Option<ast::Path> used before such an expect goes through it or returns None")
+    LOWER = "crates/ast/src/lower.rs"
+    f = model.fn("lower_path", LOWER)
+    def path_somes(fn_):
+        return [c for c in S.walk(fn_.body) if c["k"] == "Call" and S.callee_name(c) == "Some" and c["args"] and
+                re.search(r"Path::|^path$|^segments$", S.norm_ws(run.facts.text(LOWER, c["args"][0]["sp"])))]
+    somes = path_somes(f)
+    par = S.Parents(f.body)
+    guarded = []
+    for c in somes:
+        ok = False
+        for a in par.ancestors(c):
+            if a["k"] == "If":
+                ct = S.norm_ws(run.facts.text(LOWER, a["cond"]["sp"]))
+                in_else = a.get("else") is not None and S.span_contains(a["else"]["sp"], c["sp"])
+                in_then = S.span_contains(a["then"]["sp"], c["sp"])
+                if (re.fullmatch(r"\w+\.is_empty\(\)", ct) and in_else) or (re.fullmatch(r"!\w+\.is_empty\(\)", ct) and in_then):
+                    ok = True
+        if not ok:
+            # or: an earlier statement `if x.is_empty() { …; return None; }`
+            for iff in S.find(f.body, "If"):
+                ct = S.norm_ws(run.facts.text(LOWER, iff["cond"]["sp"]))
+                if re.fullmatch(r"\w+\.is_empty\(\)", ct) and (iff["sp"][0], iff["sp"][1]) < (c["sp"][0], c["sp"][1]) and \
+                        any(True for _ in S.find(iff["then"], "Return")) and not S.span_contains(iff["sp"], c["sp"]):
+                    ok = True
+        guarded.append(ok)
+    run.ob("R20.4", "lower_path|Some only for non-empty paths", bool(somes) and all(guarded), site(LOWER, f.node["sp"]),
+           f"{len(somes)} Some(..) result(s), guarded by an emptiness test: {guarded}",
+           witness="hover on `let _ = ::;` : lower_path returns an empty path and `.expect(\"paths must contain at least one segment\")` panics at every cursor position")
+    for name in ("lower_constructor_path_from_ident_expr", "lower_constructor_path_from_constr_pat"):
+        g = model.opt_fn(name, LOWER)
+        if g is None:
+            continue
+        somes = path_somes(g)
+        via = any(True for _ in S.calls(g.body, "lower_path"))
+        run.ob("R20.4", f"{name}|paths come from lower_path", via and not somes, site(LOWER, g.node["sp"]),
+               f"delegates to lower_path: {via}; builds Some(..) itself: {len(somes)}")
+    from rules import c03
+    run.rule("R20.5", "the types the query tables record are fully resolved (shared with C03 R03.9)")
+    run.try_rule(c03.r03_9, model)
+
+
 def run(run, model):
     mir = Mir(run.facts)
     g = Graph(mir)
+    run.try_rule(r20_4, model)
     run.try_rule(r20_1, model, mir, g)
     run.try_rule(r20_2, model)
     run.try_rule(r20_3, model)
